@@ -294,15 +294,17 @@ type mvRead struct {
 // runMoving runs ONE real updateBest while heads move: a move "m<k>:<conn>:<seqno>" is a SetMasterHead(conn, seqno)
 // executed just before the k-th MasterHead() call (0-based) that updateBest makes through the conn interface (gate
 // "head"); every value updateBest reads is recorded (gate "head.done"). args: <strategy> <prev> <alive:seqno:rtt>...
-// m<k>:<conn>:<seqno>... r<i>:<conn>:<rtt>... (r: the round-trip time of <conn> changes just before the selection loop
-// looks at member i; the returned members carry the round-trip time each member has at ITS OWN turn)
+// m<k>:<conn>:<seqno>... r<i>:<conn>:<rtt>... (r: the round-trip time of <conn> changes just before the refresh reads
+// member i; the returned members carry the round-trip time each member has at ITS OWN turn)
 func runMoving(a []string) (st string, prev int, ms []member, reads []mvRead, got int) {
 	defer func() {
-		for _, x := range a[2:] {
-			if strings.HasPrefix(x, "r") {
-				f := strings.Split(x[1:], ":")
-				if i, c := atoi(f[0]), atoi(f[1]); c < len(ms) && i <= c {
-					ms[c].rtt = int64(atoi(f[2]))
+		for turn := 0; turn < len(ms); turn++ { // in the order in which the changes happen
+			for _, x := range a[2:] {
+				if strings.HasPrefix(x, "r") {
+					f := strings.Split(x[1:], ":")
+					if i, c := atoi(f[0]), atoi(f[1]); i == turn && c < len(ms) && i <= c {
+						ms[c].rtt = int64(atoi(f[2]))
+					}
 				}
 			}
 		}
@@ -332,7 +334,7 @@ func runMoving(a []string) (st string, prev int, ms []member, reads []mvRead, go
 	} else {
 		s.p.VerifSetBest(s.vs[prev])
 	}
-	calls, turns := 0, 0
+	calls := 0
 	active := true
 	for _, v := range s.vs {
 		v.VerifSetGate(func(point string, id int) {
@@ -348,18 +350,16 @@ func runMoving(a []string) (st string, prev int, ms []member, reads []mvRead, go
 						s.vs[atoi(f[1])].SetMasterHead(pool.VerifHead(uint32(q)))
 					}
 				}
-				calls++
-			case "head.done":
-				reads = append(reads, mvRead{id, s.vs[id].VerifHeadSeqno()})
-			case "ok":
-				// the selection loop is about to look at member <turns>: round-trip times change now
+				// the refresh is about to read member <calls>: round-trip times change now
 				for _, mv := range rmoves {
 					f := strings.Split(mv, ":")
-					if atoi(f[0]) == turns {
+					if atoi(f[0]) == calls {
 						s.vs[atoi(f[1])].VerifSetRTT(time.Duration(atoi(f[2])))
 					}
 				}
-				turns++
+				calls++
+			case "head.done":
+				reads = append(reads, mvRead{id, s.vs[id].VerifHeadSeqno()})
 			}
 		})
 	}
